@@ -29,7 +29,8 @@ AppliedEvents(pre, post, c) == {r.ev : r \in NewlyAccepted(pre, post, c)}
 \* g.term[c] : ids that reached a terminal state (executed or refunded) on chain c
 \* g.ref[c]  : ids refunded;  g.exe[c] : ids executed
 \* g.taken[c] : id -> hub-unit amount debited from the sender when the transfer was accepted (hub-origin sends)
-GhostInit(s) == [ref |-> [c \in Chains(s) |-> {}], exe |-> [c \in Chains(s) |-> {}], taken |-> [c \in Chains(s) |-> <<>>]]
+\* g.wd[c]    : <<token, nonce>> of batches the hub withdrew without an observed execution
+GhostInit(s) == [ref |-> [c \in Chains(s) |-> {}], exe |-> [c \in Chains(s) |-> {}], taken |-> [c \in Chains(s) |-> <<>>], wd |-> [c \in Chains(s) |-> {}]]
 
 \* transfers of batch (tok, n) in the pre-state that an applied Exec event of this step names
 ExecutedNow(pre, post, c) ==
@@ -46,7 +47,10 @@ GhostNext(g, pre, a, res, post) ==
                 g.ref[c] \cup {id \in LiveIds(pre, c) \ LiveIds(post, c) : id \notin {tr.id : tr \in ExecutedNow(pre, post, c)}}],
      exe |-> [c \in Chains(post) |-> g.exe[c] \cup {tr.id : tr \in ExecutedNow(pre, post, c) \cap LiveTrs(pre, c)}],
      taken |-> [c \in Chains(post) |->
-                 IF a.k = "Send" /\ res.out = "ok" /\ a.chain = c THEN Put(g.taken[c], res.id, a.amt + a.fee) ELSE g.taken[c]]]
+                 IF a.k = "Send" /\ res.out = "ok" /\ a.chain = c THEN Put(g.taken[c], res.id, a.amt + a.fee) ELSE g.taken[c]],
+     wd |-> [c \in Chains(post) |->
+                 g.wd[c] \cup {<<b.tok, b.n>> : b \in {b \in pre.ch[c].bat : (~\E o \in post.ch[c].bat : o.n = b.n /\ o.tok = b.tok)
+                                                                  /\ ~\E ev \in AppliedEvents(pre, post, c) : ev.t = "Exec" /\ ev.tok = b.tok /\ ev.bn = b.n}}]]
 
 \* ---------------------------------------------------------------- C04  a transfer is in exactly one place
 C04Checks(g, pre, a, res, post) ==
